@@ -239,43 +239,84 @@ func (ro *Roles) expiryHandler(r *Report, rule string) {
 	for _, f := range ro.rootFuncs() {
 		for _, st := range ro.storesTo(f, "PipelineJob.startTimer", func(s *ssa.Store) bool { return isNilConst(s.Val) }) {
 			key := FuncName(f) + ": startTimer = nil"
-			// a store in a helper is judged in the anchor the helper is spliced into
-			host := f
-			if hs, other := ro.hostsOf(f); len(hs) == 1 && !other {
-				host = hs[0]
+			// a store in a helper is judged in every anchor the helper is spliced into
+			hosts, other := ro.hostsOf(f)
+			if len(hosts) == 0 || other {
+				hosts = []*ssa.Function{f}
 			}
-			switch {
-			case host == ro.Expiry:
-				r.OK(rule+".who-clears", key, w.InstrPos(st), "the expiry handler (reachable only as the timer's callback and the exported API)")
-			case host == ro.Accept:
-				// replace: the slot is overwritten on every path afterwards
-				res := w.EnumPaths(host, EnumOpts{Inline: true, Opaque: w.statelessCallee})
-				okW, seen := !res.Truncated, false
-				for _, p := range res.Paths {
-					for i, e := range p.Effects {
-						if e.In != ssa.Instruction(st) {
-							continue
-						}
-						seen = true
-						slot := strings.TrimSuffix(e.Target, ".startTimer")
-						over := false
-						for _, e2 := range p.Effects[i+1:] {
-							if e2.Kind == "store" && e2.Target == slot {
-								over = true
+			for _, host := range hosts {
+				hkey := key
+				if host != f {
+					hkey = FuncName(f) + " (in " + FuncName(host) + "): startTimer = nil"
+				}
+				switch {
+				case host == ro.Expiry:
+					r.OK(rule+".who-clears", hkey, w.InstrPos(st), "the expiry handler (reachable only as the timer's callback and the exported API)")
+				case host == ro.Accept:
+					// replace: the slot is overwritten on every path afterwards
+					res := w.EnumPaths(host, EnumOpts{Inline: true, Opaque: ro.isSnapshotCtor})
+					okW, seen := !res.Truncated, false
+					for _, p := range res.Paths {
+						for i, e := range p.Effects {
+							if e.In != ssa.Instruction(st) {
+								continue
+							}
+							seen = true
+							slot := strings.TrimSuffix(e.Target, ".startTimer")
+							over := false
+							for _, e2 := range p.Effects[i+1:] {
+								if e2.Kind == "store" && e2.Target == slot {
+									over = true
+								}
+							}
+							if !over && p.End == "return" {
+								okW = false
 							}
 						}
-						if !over && p.End == "return" {
-							okW = false
-						}
 					}
-				}
-				r.Check(okW && seen, rule+".who-clears", key, w.InstrPos(st), "replace: the job's slot is overwritten on every path afterwards (it leaves the list for good)", "the timer of a job that stays listed is cleared: it can start before its delay has passed")
-			default:
-				_, removes := ro.removesFromWaitList(f, 0)
-				if !removes {
-					r.Viol(rule+".who-clears", key, w.InstrPos(st), "the start timer is cleared by a function that neither is the expiry handler nor takes the job off the wait list: a delayed job can start early")
-				} else {
-					r.OK(rule+".who-clears", key, w.InstrPos(st), "the function removes the job from the wait list in the same lock region")
+					r.Check(okW && seen, rule+".who-clears", hkey, w.InstrPos(st), "replace: the job's slot is overwritten on every path afterwards (it leaves the list for good)", "the timer of a job that stays listed is cleared: it can start before its delay has passed")
+				default:
+					// the job leaves the wait list on every path of the anchor on which its timer is cleared
+					removes := false
+					if host == f {
+						_, removes = ro.removesFromWaitList(f, 0)
+					} else {
+						res := w.EnumPaths(host, EnumOpts{Inline: true, Opaque: w.statelessCallee, MaxPaths: 20000})
+						removes = !res.Truncated
+						seen := false
+						for _, p := range res.Paths {
+							cleared, removed := false, false
+							for _, e := range p.Effects {
+								if e.In == ssa.Instruction(st) {
+									cleared = true
+								}
+								if mu, ok := e.In.(*ssa.MapUpdate); ok && e.Kind == "mapupdate" && strings.Contains(e.Target, waitListField) && ro.formOf(mu.Value, w.AP(mu.Key), 0) == "delete-at-i" {
+									removed = true
+								}
+							}
+							if cleared {
+								seen = true
+								if !removed && p.End == "return" {
+									// the job may simply not be on the list (nothing to remove): accept when the path decided so by comparing the list's elements with the job
+									onList := false
+									for _, l := range p.Lits {
+										if strings.Contains(l.Atom.L, waitListField) && l.Val && l.Atom.Op == "==" && !strings.HasPrefix(l.Atom.L, "len(") {
+											onList = true
+										}
+									}
+									if onList {
+										removes = false
+									}
+								}
+							}
+						}
+						removes = removes && seen
+					}
+					if !removes {
+						r.Viol(rule+".who-clears", hkey, w.InstrPos(st), "the start timer is cleared by a function that neither is the expiry handler nor takes the job off the wait list: a delayed job can start early")
+					} else {
+						r.OK(rule+".who-clears", hkey, w.InstrPos(st), "the job is removed from the wait list in the same lock region")
+					}
 				}
 			}
 		}
